@@ -115,6 +115,12 @@ def apply_edit(cfg, edit, objs):
       cfg[_slice(edit[1])] = [deref(r, objs) for r in edit[2]]
     elif op == 'delslice':
       del cfg[_slice(edit[1])]
+    elif op == 'try_update_callable':
+      # an attempt the library rejects (incompatible callable); the caller carries on
+      try:
+        fdl.update_callable(cfg, things.resolve_symbol(edit[1]))
+      except TypeError:
+        pass
     else:
       raise ValueError(op)
   except Exception as e:  # pylint: disable=broad-except
@@ -147,6 +153,8 @@ def build_node(node, objs, notes=None):
     if node['bt'] == 'DictConfig':
       from fiddle.experimental import dict_config
       cfg = dict_config.DictConfig(**{n: deref(r, objs) for n, r in node.get('kw', {}).items()})
+      for e in node.get('edits', []):
+        apply_edit(cfg, e, objs)
       for key, tname in node.get('tags', []):
         fdl.add_tag(cfg, key, vtags.ALL[tname])
       return cfg
@@ -301,7 +309,7 @@ def arg_program(draw, fnspec, pick_ref, patterns=None):
   if info.varkw and draw(st.floats(0, 1)) < 0.15:
     # a **kwargs entry named like a positional-only parameter or like the *args parameter
     # (legal in a direct call: f(1, p0=2) binds p0 into **kw)
-    clash = [n for n in info.posonly] + (['args'] if info.varargs else [])
+    clash = [n for n in info.posonly] + (['args'] if info.varargs else []) + [info.varkw_name]
     if clash:
       kw[draw(st.sampled_from(clash))] = pick_ref()
   if nvar and not ctor_var:
